@@ -631,18 +631,16 @@ def parse_tree_to_objgraph(
                 # with matched concrete meta-class down the inheritance tree.
                 # Abstract meta-class should never be instantiated.
                 if len(node) > 1:
-                    try:
-                        return process_node(
-                            next(
-                                n
-                                for n in node
-                                if type(n) is not Terminal
-                                and n.rule._tx_class is not RULE_MATCH
-                            )
-                        )  # noqa
-                    except StopIteration:
-                        # All nodes are match rules, do concatenation
-                        return "".join(str(n) for n in node)
+                    nonterminals = [n for n in node if type(n) is not Terminal]
+                    for n in nonterminals:
+                        # The first non-match rule reference gives the result.
+                        if n.rule._tx_class._tx_type != RULE_MATCH:
+                            return process_node(n)
+                    if nonterminals:
+                        # Only match rules. The first match rule is the result.
+                        return process_node(nonterminals[0])
+                    # All nodes are terminals, do concatenation
+                    return "".join(str(n) for n in node)
                 else:
                     return process_node(node[0])
             elif mclass._tx_type == RULE_MATCH:
